@@ -1,6 +1,8 @@
 (* BridgeTac.v — the fixed proof script of every generated bridge lemma. *)
 From Coq Require Import List Bool.
 From PV Require Import Num PyBase.
+From PV Require Model.Process.
+Import Model.Process.
 
 (* functions that must not be unfolded wholesale (recursion on fuel / step count);
    they are stepped explicitly by the family-specific tactics *)
@@ -20,3 +22,9 @@ Ltac solver_norm :=
   cbv beta iota zeta delta -[num add sub mul div neg nabs nexp nln rpow ipow lit leb ltb eqb] in *.
 Ltac bridge_solver :=
   solver_norm; repeat (step_if; solver_norm); all_pcs_used; reflexivity.
+
+(* process bridges: the fitted-function evaluation pf_call is a cut point (bridged on its own) *)
+Ltac process_norm :=
+  cbv beta iota zeta delta -[num add sub mul div neg nabs nexp nln rpow ipow lit leb ltb eqb pf_call] in *.
+Ltac bridge_process :=
+  process_norm; repeat (step_if; process_norm); all_pcs_used; reflexivity.
